@@ -206,6 +206,7 @@ pub fn record(output: &str) {
     let nm = |x: f64| -> i64 { if x.is_finite() { (x * 1e9).round().min(2e9) as i64 } else { 2_000_000_000 } };
     let mut last_q = [0.0; 6];
     let mut last_p: Option<Parameters> = None;
+    let mut session: Option<(Parameters, &str, &str)> = None;
     for k in 0..n {
         let class = if k % 13 == 12 { robots::FK_ONLY_CLASSES[(k / 13) % 2] } else { robots::GEOMETRY_CLASSES[k % robots::GEOMETRY_CLASSES.len()] };
         let p = if k % 11 == 10 { robots::named_robots()[(k / 11) % 11].1 } else { robots::geometry(class, &mut r) };
@@ -220,11 +221,28 @@ pub fn record(output: &str) {
         // given to the next robot (the solvers of consecutive rounds live at the same address)
         if k % 7 == 5 { for i in 0..6 { if r.gen_bool(0.4) { q[i] = 0.0; } } }
         if k % 6 == 4 { q = last_q; }
+        // short sessions on one description: after call k = 5 (mod 10) the same robot is asked again with only the arm
+        // joints changed, then with only the wrist joints changed, then with a single joint changed
+        // (link pose i depends on joints 1..i of THIS call, whatever was asked before)
+        let (mut class, mut oc) = (class, oc);
+        if let (6..=8, Some((sp, sclass, soc))) = (k % 10, session) {
+            p = sp; class = sclass; oc = soc;
+            q = last_q;
+            match k % 10 {
+                6 => for i in 0..3 { q[i] = r.gen_range(-span..span); },
+                7 => for i in 3..6 { q[i] = r.gen_range(-span..span); },
+                _ => { let i = r.gen_range(0..6); q[i] = r.gen_range(-span..span); }
+            }
+        }
+        if k % 10 == 5 { session = Some((p, class, oc)); }
         last_q = q;
         last_p = Some(p);
-        let robot = if k % 2 == 0 { OPWKinematics::new(p) } else {
-            OPWKinematics::new_with_constraints(p, Constraints::new([-0.5, -1.0, 0.2, 2.0, -3.0, 1.0], [0.5, 1.5, 0.1, 2.0, 3.0, -1.0], 0.3))
-        };
+        let limits = Constraints::new([-0.5, -1.0, 0.2, 2.0, -3.0, 1.0], [0.5, 1.5, 0.1, 2.0, 3.0, -1.0], 0.3);
+        // (constructors: plain, with limits, and - one in four - the URDF route, which is handed the offsets separately)
+        let robot = if k % 4 == 3 {
+            rs_opw_kinematics::urdf::URDFParameters { a1: p.a1, a2: p.a2, b: p.b, c1: p.c1, c2: p.c2, c3: p.c3, c4: p.c4,
+                sign_corrections: p.sign_corrections, from: limits.from, to: limits.to, dof: p.dof }.to_robot(0.3, &p.offsets)
+        } else if k % 2 == 0 { OPWKinematics::new(p) } else { OPWKinematics::new_with_constraints(p, limits) };
         // one robot in nine sits behind a parallelogram coupling: the same chain at the joint vector with the coupled
         // joint reduced by scaling times the driven one, through both forward functions of the wrapper
         let coupling = if k % 9 == 7 {
